@@ -99,6 +99,10 @@ def tld_domains(tier, rng, mdl):
     for cls in sorted(bycls):
         picks.append(sorted(bycls[cls], key=len)[0])
     picks += [b"zzzz", b"example", b"test"]
+    for t in picks + [b"edu", b"gov", b"mil", b"int", b"info", b"biz", b"name", b"museum", b"arpa", b"de", b"uk"]:
+        for w in (b"example", b"EXAMPLE", b"test", b"localhost", b"invalid"):
+            out.append(w + b"." + t)
+            out.append(b"www." + w + b"." + t)
     for t in picks:
         for k in (5, 31, 32, 33, 62, 63, 64, 65, 66, 100, 120, 125, 126, 127):
             d = b"a." * (k - 1) + t
